@@ -108,17 +108,18 @@ theorem encWire_balanced : ∀ (ts : List Tok) (d d' : Nat), depthAfter d ts = s
     | procInst a b => simp only [depthAfter] at h; simp [encWire, ih _ _ h]
     | directive s => simp only [depthAfter] at h; simp [encWire, ih _ _ h]
 
-/-- with the output open and a handler that does not close it, the model with output states is
-the model of the other theorems, up to what the encoder lets through (`encWire`, the identity
+/-- with the output open and a handler that does not close it and writes whole elements (or
+nothing), the model with output states is the model of the other theorems, up to what the encoder lets through (`encWire`, the identity
 on whole elements) -/
-theorem C08_open_output (cfg : Cfg) (rs : RS) (prog : Prog) (hc : prog.close = false) :
+theorem C08_open_output (cfg : Cfg) (rs : RS) (prog : Prog) (hc : prog.close = false)
+    (hb : leavesBroken (writesOf prog.ops) = false) :
     handleInputStreamC cfg .opn rs prog
       = (handleInputStream cfg rs prog).mapWritten fun w => (encWire 0 w).2.2 := by
   unfold handleInputStreamC handleInputStream
   generalize ({ rs with dOut := 0, sticky := none } : RS).next = r
   obtain ⟨rd, rs1⟩ := r
   cases rd with
-  | tok t => cases t <;> simp [handleElemC, hc, Step.mapWritten, encWire]
+  | tok t => cases t <;> simp [handleElemC, hc, hb, Step.mapWritten, encWire]
   | err e => simp [Step.mapWritten, encWire]
   | eof => simp [Step.mapWritten, encWire]
 
@@ -134,11 +135,13 @@ theorem C08_output_state_never_clean (cfg : Cfg) (st : OutSt) (n : Name) (as : L
   by_cases h1 : (st1 == OutSt.opn) = true
   · rw [if_pos h1]
     intro h
-    cases hx : handleElem cfg n as rs1 prog with
-    | next i w' rs => simp [hx, Step.mapWritten] at h
-    | stop i w' r =>
-      simp [hx, Step.mapWritten] at h
-      exact handleElem_never_clean cfg n as rs1 prog inv w' (by rw [hx, h.1, h.2.2])
+    split at h
+    · simp at h
+    · cases hx : handleElem cfg n as rs1 prog with
+      | next i w' rs => simp [hx, Step.mapWritten] at h
+      | stop i w' r =>
+        simp [hx, Step.mapWritten] at h
+        exact handleElem_never_clean cfg n as rs1 prog inv w' (by rw [hx, h.1, h.2.2])
   · rw [if_neg h1]
     split
     · repeat' split
@@ -894,7 +897,14 @@ theorem handleElemC_clean (cfg : Cfg) (st : OutSt) (n : Name) (as : List Attr) (
   simp only at hi
   generalize (if prog.close = true then OutSt.closed else st) = st1 at hi
   by_cases h1 : (st1 == OutSt.opn) = true
-  · rw [if_pos h1, Step.inv_mapWritten] at hi; exact handleElem_clean cfg n as rs1 prog hn i hi
+  · rw [if_pos h1] at hi
+    split at hi
+    · have key : i = Serve.Inv.mk (Tok.start n (blankFrom cfg n as))
+          (runOps (getId (blankFrom cfg n as)) prog.ops { rs := rs1, cnt := 0, fin := false } WS.init []).1 := by
+        simp [Step.inv] at hi; exact hi.symm
+      subst key
+      exact ⟨⟨n, _, rfl, by simpa [plainTok] using hn⟩, hv⟩
+    · rw [Step.inv_mapWritten] at hi; exact handleElem_clean cfg n as rs1 prog hn i hi
   · rw [if_neg h1] at hi
     cases hret : prog.ret <;> simp only [hret] at hi
     case ok =>
